@@ -1,5 +1,7 @@
 use crate::engine::Property;
 
+pub mod c01;
+pub mod c06;
 pub mod c07;
 pub mod c12;
 pub mod c13;
@@ -7,7 +9,15 @@ pub mod c14;
 pub mod c19;
 
 pub fn all() -> Vec<Box<dyn Property>> {
-    vec![Box::new(c07::C07), Box::new(c19::C19), Box::new(c12::C12), Box::new(c13::C13), Box::new(c14::C14)]
+    vec![
+        Box::new(c01::C01),
+        Box::new(c06::C06),
+        Box::new(c07::C07),
+        Box::new(c12::C12),
+        Box::new(c13::C13),
+        Box::new(c14::C14),
+        Box::new(c19::C19),
+    ]
 }
 
 pub fn by_id(id: &str) -> Option<Box<dyn Property>> {
